@@ -15,13 +15,13 @@ tests=$(PYTHONPATH=$WT timeout 900 /venv/bin/python -m pytest -q -p no:cacheprov
 # the demonstration runs in the worktree it was written for (some demos assert their own path):
 # that worktree is clean (the sub-agent is finished); apply the patch there, run, and undo
 ORIG=$(dirname $SRC)
-( cd $ORIG && git checkout -q -- . && git apply $SRC/patch$K.diff && PYTHONPATH=$ORIG timeout 600 /venv/bin/python seed_out/demo$K.py > $WT/demo_with.log 2>&1 ); demo_with=$?
-( cd $ORIG && git checkout -q -- . )
+LOCK=/tmp/seedlock_$(basename $ORIG)
+flock $LOCK sh -c "cd $ORIG && git checkout -q -- . && git apply $SRC/patch$K.diff && PYTHONPATH=$ORIG timeout 600 /venv/bin/python seed_out/demo$K.py > $WT/demo_with.log 2>&1; rc=\$?; git checkout -q -- .; exit \$rc"; demo_with=$?
 # run all checks on the changed tree, in parallel
 mkdir -p $WT/chk
 ls /verif/sa/checks | sed -n 's/^\(c[0-9][0-9]\)\.py$/\1/p' | tr a-z A-Z | xargs -P 10 -I{} sh -c "cd /verif && timeout 900 /venv/bin/python sa/run.py {} --repo $WT --scratch > $WT/chk/{}.log 2>&1; echo \$? > $WT/chk/{}.rc"
 git checkout -q -- .
-( cd $ORIG && git checkout -q -- . && PYTHONPATH=$ORIG timeout 600 /venv/bin/python seed_out/demo$K.py > $WT/demo_without.log 2>&1 ); demo_without=$?
+flock $LOCK sh -c "cd $ORIG && git checkout -q -- . && PYTHONPATH=$ORIG timeout 600 /venv/bin/python seed_out/demo$K.py > $WT/demo_without.log 2>&1"; demo_without=$?
 mkdir -p $OUT
 cp $SRC/patch$K.diff $OUT/patch.diff; cp $SRC/demo$K.py $OUT/demo.py; cp $SRC/notes$K.md $OUT/notes.md 2>/dev/null
 : > $OUT/checks.txt
